@@ -66,6 +66,12 @@ func buildStateOpt(t *rapid.T, forPool bool) (*node.Node, []string) {
 		sp := node.Spec{Script: node.Script{Salt: uint32(i % 3)}}
 		if changeAt[i] {
 			sp.Script.Next = node.DrawParams(t, 9, false, "chg")
+			if rapid.Bool().Draw(t, "derivedChange") { // same validators, ONE aspect altered (certificate threshold alone, ...)
+				if d, kind := n.DerivedChange(t); d != nil {
+					sp.Script.Next = d
+					evid.R.Label("chain-with-"+kind+"-change", 1)
+				}
+			}
 			hist = append(hist, fmt.Sprintf("h=%d change -> validators=%v weights=%v precommit=%d cert=%d", i, sp.Script.Next.Idx, sp.Script.Next.Weights, sp.Script.Next.Precommit, sp.Script.Next.Cert))
 		}
 		// occasionally certify part of the chain through a block's aggregate commit
